@@ -363,6 +363,95 @@ Theorem context_formatter_is_model :
   /\ gen_context_iter_formatted_strings_call = mk_src_ambient true true.
 Proof. repeat split. Qed.
 
+(** * the isinstance ladder of the dispatch, over Python's types
+    The value universe has one constructor per kind of value, so [iter_is_model] cannot see a
+    class dropped from (or added to) a test when no constructor distinguishes it — [bytes] vs
+    [bytearray], [set] vs [frozenset], a dict / list subclass.  The translator therefore also
+    emits the class tuples of every isinstance test, in source order, and here that ladder is
+    run over a table of Python types: (type, the classes among those the translator knows by
+    name that it is an instance of).  What is proved: which test each type is caught by.
+    Together with [iter_is_model] (what the branch behind that test does, on the constructor
+    representing the kind) this fixes the treatment of every listed type.  Reordering
+    independent tests keeps the result; changing a class tuple does not. *)
+Definition py_type_table : list (string * list string) :=
+  [("str", ["str"; "Sequence"]);
+   ("bytes", ["bytes"; "Sequence"]);
+   ("bytearray", ["bytearray"; "Sequence"]);
+   ("list", ["list"; "Sequence"]);
+   ("CommentedSeq", ["list"; "Sequence"]);
+   ("tuple", ["tuple"; "Sequence"]);
+   ("set", ["Set"]);
+   ("frozenset", ["Set"]);
+   ("dict", ["dict"; "Mapping"]);
+   ("OrderedDict", ["dict"; "Mapping"]);
+   ("CommentedMap", ["dict"; "Mapping"]);
+   ("Context", ["dict"; "Mapping"]);
+   ("PyString", ["PyString"; "SpecialTagDirective"]);
+   ("SicString", ["SicString"; "SpecialTagDirective"]);
+   ("Jsonify", ["Jsonify"; "SpecialTagDirective"]);
+   ("NoneType", []);
+   ("bool", ["bool"; "int"]);
+   ("int", ["int"]);
+   ("float", ["float"]);
+   ("object", [])].
+
+(** the classes a test stands for: the formatter's attributes are what Context passes *)
+Definition resolve_test (t : list string) : list string :=
+  if list_eqb String.eqb t ["self.passthrough_types"]
+  then match gen_context_passthrough_types with Some l => l | None => [] end
+  else if list_eqb String.eqb t ["self.special_types"]
+  then match gen_context_special_types with Some l => l | None => [] end
+  else t.
+
+(** the first test of the ladder an instance of a type with these classes passes *)
+Fixpoint first_match (classes : list string) (ladder : list (list string)) : list string :=
+  match ladder with
+  | [] => []
+  | t :: r => if existsb (fun c => str_in c classes) (resolve_test t) then t else first_match classes r
+  end.
+
+Definition ladder_verdicts (ladder : list (list string)) : list (string * list string) :=
+  map (fun ty => (fst ty, first_match (snd ty) ladder)) py_type_table.
+
+Theorem isinstance_ladder_is_model :
+  (* only the object being formatted is tested, and nowhere else in the formatter *)
+  snd gen_get_formatted_iterable_isinstance_tests = []
+  /\ gen_format_keep_type_isinstance_tests = ([], [])
+  /\ gen_vformat_isinstance_tests = ([], [])
+  /\ ladder_verdicts (fst gen_get_formatted_iterable_isinstance_tests)
+     = [("str", ["str"]);
+        ("bytes", ["bytearray"; "bytes"]);
+        ("bytearray", ["bytearray"; "bytes"]);        (* a leaf: the identical object *)
+        ("list", ["Sequence"; "Set"]);
+        ("CommentedSeq", ["Sequence"; "Set"]);
+        ("tuple", ["Sequence"; "Set"]);
+        ("set", ["Sequence"; "Set"]);
+        ("frozenset", ["Sequence"; "Set"]);
+        ("dict", ["Mapping"]);
+        ("OrderedDict", ["Mapping"]);
+        ("CommentedMap", ["Mapping"]);
+        ("Context", ["Mapping"]);
+        ("PyString", ["self.special_types"]);
+        ("SicString", ["self.special_types"]);
+        ("Jsonify", ["self.special_types"]);
+        ("NoneType", []);
+        ("bool", []);
+        ("int", []);
+        ("float", []);
+        ("object", [])].
+Proof. repeat split. Qed.
+
+(** the table agrees with the value universe on the kinds the latter has *)
+Lemma py_type_table_agrees s l d src e v :
+  let cls n := match find (fun ty => String.eqb (fst ty) n) py_type_table with
+               | Some ty => snd ty | None => [] end in
+  classes_of (VStr s) = cls "str" /\ classes_of (VBytes s) = cls "bytes"
+  /\ classes_of (VList l) = cls "list" /\ classes_of (VTuple l) = cls "tuple"
+  /\ classes_of (VSet l) = cls "set" /\ classes_of (VDict d) = cls "dict"
+  /\ classes_of (VPy src e) = cls "PyString" /\ classes_of (VSic s) = cls "SicString"
+  /\ classes_of (VJsonify v) = cls "Jsonify" /\ classes_of VNone = cls "NoneType".
+Proof. cbv zeta. repeat split. Qed.
+
 (** * shape preservation read off the generated dispatch (C09) *)
 Section Shape.
   Variable ctx : dict.
